@@ -241,7 +241,7 @@ def check_input_forms(text, acc, api, start, case):
             return
 
 
-def check_text(text, acc, api, start=1, must_reject=False, reject_or_account=False, kind='soup', expect_col=None, must_accept=False):
+def check_text(text, acc, api, start=1, must_reject=False, reject_or_account=False, kind='soup', expect_col=None, must_accept=False, expect_line=None):
     """Run the real parser on text under the full oracle. Returns the exception or model."""
     parse_script, perr = api
     case = {'text': text, 'start': start, 'must_reject': must_reject, 'kind': kind}
@@ -270,6 +270,10 @@ def check_text(text, acc, api, start=1, must_reject=False, reject_or_account=Fal
                     acc.violation('diagnostic-names-the-wrong-block', f'{exc.error!r} at line {exc.line_number} ({exc.line!r:.100}); the innermost open block is '
                                   f'{want_blk if want_blk == "none" else (want_blk[0], start + want_blk[1])!r}\ntext={text!r:.800}', case)
                     return exc
+        if expect_line is not None and exc.line_number != start + expect_line:
+            # the ONE fault of this text sits on a known line
+            acc.violation('diagnostic-names-another-line', f'{exc.error!r} at line {exc.line_number} ({exc.line!r:.100}); the only fault of the text is on line {start + expect_line}\ntext={text!r:.800}', case)
+            return exc
         if expect_col is not None:
             lo, hi, lineno = expect_col
             if exc.line_number == lineno and not lo <= exc.column_number <= hi:
@@ -510,6 +514,14 @@ def run_texts(spec, acc, api):
                 acc.count('programs_after_a_function_in_an_open_block')
             if rnd.random() < 0.4:
                 text = with_layout_noise(rnd, text)
+            if rnd.random() < 0.06:
+                # ONE fault: a continuation backslash at the end of the last line (often a closing keyword) - nothing follows it; the
+                # diagnostic belongs to that last logical line, whatever blocks its missing end leaves open
+                ll, pend, _ = logical_lines(text)
+                if ll and pend is None:
+                    last_first = max(ll)
+                    check_text(text + rnd.choice([' \\', '\\', ' \\  ']), acc, api, start=start, must_reject=True, kind='backslash-on-last-line', expect_line=last_first)
+                    acc.count('backslash_on_last_line_texts')
             if rnd.random() < 0.12:
                 check_text(text, acc, api, start=start, kind='valid', must_accept=True)
             else:
@@ -605,4 +617,6 @@ def replay(spec, acc):
     if 'text' not in case:
         acc.note_inconclusive('finding-level replay entry')
         return
-    check_text(case['text'], acc, _api(), start=case.get('start', 1), must_reject=case.get('must_reject', False), kind=case.get('kind', 'replay'), must_accept=case.get('kind') == 'valid')
+    pend = logical_lines(case['text'])[1]
+    check_text(case['text'], acc, _api(), start=case.get('start', 1), must_reject=case.get('must_reject', False), kind=case.get('kind', 'replay'), must_accept=case.get('kind') == 'valid',
+               expect_line=pend[0] if case.get('kind') == 'backslash-on-last-line' and pend else None)
